@@ -74,7 +74,7 @@ def parse_message(message, validation_level=None, find_groups=True, message_prof
     validation_level = _get_validation_level(validation_level)
 
     try:
-        reference = message_profile[message_structure] if message_profile else None
+        reference = message_profile[message_structure] if message_profile is not None else None
     except KeyError:
         raise MessageProfileNotFound()
     if reference is not None and reference[0] == 'mp':  # the structure has already been looked up: Message cannot tell
